@@ -47,6 +47,10 @@ def generate(rng, tier):
     cs += wrath_pair_cases(rng, rbytes(rng, 40), 70000, 66000, "crosses-65536")
     for _ in range(60 if tier == "quick" else 3000):
         cs += wrath_pair_cases(rng, special_key(rng), rng.randint(0, 2000), rng.randint(0, 2000), "random-stream")
+    Kb = rbytes(rng, 40)
+    for i in range(40):
+        k2 = bytearray(Kb); k2[i] ^= rng.choice([1, 0x80, 0xff])
+        cs += wrath_pair_cases(rng, Kb if i % 5 == 0 else bytes(k2), 40, 40, "sibling-keys-on-one-thread")
     # the pairing also holds at the header level: what the client's encrypter emits for a client header is what the
     # server's decrypter decodes (typed helper and read-based call, the latter fed in arbitrary fragments)
     import struct
